@@ -111,7 +111,7 @@ class AbstractWalkModelDiGraph(ABC):
             raise ValueError(f"The input graph G has no edges. Please provide a graph with at least one edge.")
         self.id = self.G.id
         self.k = k
-        if k <= 0:
+        if not isinstance(k, int) or isinstance(k, bool) or k <= 0:
             utils.logger.error(f"{__name__}: k must be positive, got {k}.")
             raise ValueError(f"k must be positive, got {k}.")
         if max_edge_repetition_dict is None:
